@@ -172,9 +172,12 @@ func (h *c04Handle) IterateOverWaitingPods(cb func(fwktype.WaitingPod)) {
 // ---- declared configuration of a gang (what the harness writes into the API objects) ----
 
 type c04Cfg struct {
-	min   int
-	pol   int // 0 only-waiting 1 waiting-and-running 2 once-satisfied 3 absent 4 illegal
-	mode  int // 0 NonStrict 1 Strict 2 absent 3 illegal
+	min int
+	pol int // the match-policy annotation: 0 only-waiting 1 waiting-and-running 2 once-satisfied 3 absent 4 illegal 5 "" (present, empty)
+	al  int // the ALIAS match-policy annotation: 0 absent, 1 + a pol token otherwise (1 only-waiting .. 3 once-satisfied, 5 illegal, 6 "")
+	// the mode annotation: 0 NonStrict 1 Strict (both spelled exactly) 2 absent 3 another string 4 "" (present, empty)
+	// 5 Strict in another letter case (strict, STRICT, ..) 6 NonStrict in another letter case
+	mode  int
 	group []int
 	// shape of the groups annotation: 0 absent, 1 "" (empty string), 2 null, 3 [], 4 JSON list of `group`, 5 not JSON
 	gshape int
@@ -189,8 +192,88 @@ func (c c04Cfg) declaredGroup(self int) []int {
 	return []int{self}
 }
 
+// the alias annotation as a pol token (3 = absent)
+func (c c04Cfg) aliasTok() int {
+	if c.al == 0 {
+		return 3
+	}
+	return c.al - 1
+}
+
+// The match policy a configuration DECLARES, read by the harness itself: the value of the match-policy annotation, or of
+// its alias when the annotation is missing or empty.  -1 = nothing (legal) declared.  ambiguous: both annotations carry a
+// value and the two differ, or one is illegal while the other one is legal — the property does not say which one counts;
+// the oracle then skips the clauses that depend on the policy (the model still follows the code's precedence).
+func (c c04Cfg) declaredPol() (pol int, ambiguous bool) {
+	a, b := c.pol, c.aliasTok()
+	none := func(t int) bool { return t == 3 || t == 5 }
+	switch {
+	case none(a) && none(b):
+		return -1, false
+	case none(a):
+		a = b
+	case !none(b) && a != b:
+		return -1, true
+	}
+	if a <= 2 {
+		return a, false
+	}
+	return -1, false
+}
+
+// the policy in force for a gang with this configuration on a scheduler configured with default `dflt` (0..2; 3 = the
+// empty string, i.e. nothing configured: the documented default once-satisfied)
+func (c c04Cfg) effPol(dflt int) (int, bool) {
+	pol, amb := c.declaredPol()
+	if pol < 0 {
+		pol = dflt
+		if pol > 2 {
+			pol = 2
+		}
+	}
+	return pol, amb
+}
+
+// spellings: now and then the policy comes through the alias annotation, as an empty value, or (rarely) both
+// annotations are written and disagree
+func (c c04Cfg) respell(r *vRand) c04Cfg {
+	c.al = 0
+	switch {
+	case c.pol <= 2 && r.Chance(1, 4):
+		c.al, c.pol = c.pol+1, []int{3, 3, 3, 5}[r.Intn(4)]
+	case c.pol == 3 && r.Chance(1, 5):
+		switch r.Intn(3) {
+		case 0:
+			c.pol = 5
+		case 1:
+			c.al = 6
+		default:
+			c.pol, c.al = 5, 6
+		}
+	case c.pol == 4 && r.Chance(1, 5):
+		c.pol, c.al = []int{3, 5}[r.Intn(2)], 5
+	case c.pol != 3 && r.Chance(1, 16):
+		c.al = []int{1, 2, 3, 5}[r.Intn(4)]
+	}
+	return c
+}
+
+func c04DfltStr(d int) string {
+	switch d {
+	case 0:
+		return extension.GangMatchPolicyOnlyWaiting
+	case 1:
+		return extension.GangMatchPolicyWaitingAndRunning
+	case 2:
+		return extension.GangMatchPolicyOnceSatisfied
+	}
+	return ""
+}
+
 func c04PolStr(p int) (string, bool) {
 	switch p {
+	case 5:
+		return "", true
 	case 0:
 		return extension.GangMatchPolicyOnlyWaiting, true
 	case 1:
@@ -203,7 +286,7 @@ func c04PolStr(p int) (string, bool) {
 	return "sometimes", true
 }
 
-func c04ModeStr(m int) (string, bool) {
+func c04ModeStr(m int, r *vRand) (string, bool) {
 	switch m {
 	case 0:
 		return extension.GangModeNonStrict, true
@@ -211,8 +294,14 @@ func c04ModeStr(m int) (string, bool) {
 		return extension.GangModeStrict, true
 	case 2:
 		return "", false
+	case 4:
+		return "", true
+	case 5:
+		return []string{"strict", "STRICT", "sTRICT", "StricT"}[r.Intn(4)], true
+	case 6:
+		return []string{"nonstrict", "NONSTRICT", "nonStrict", "Nonstrict"}[r.Intn(4)], true
 	}
-	return "Lenient", true
+	return []string{"Lenient", "Strict ", "non-strict", "Strictly", "1"}[r.Intn(5)], true
 }
 
 func c04GangName(g int) string { return fmt.Sprintf("g%d", g) }
@@ -220,13 +309,12 @@ func c04GangID(g int) string   { return "ns/" + c04GangName(g) }
 
 func (c c04Cfg) annotations(ann map[string]string, r *vRand) {
 	if s, ok := c04PolStr(c.pol); ok {
-		if r.Chance(1, 4) {
-			ann[extension.AnnotationAliasGangMatchPolicy] = s
-		} else {
-			ann[extension.AnnotationGangMatchPolicy] = s
-		}
+		ann[extension.AnnotationGangMatchPolicy] = s
 	}
-	if s, ok := c04ModeStr(c.mode); ok {
+	if s, ok := c04PolStr(c.aliasTok()); ok {
+		ann[extension.AnnotationAliasGangMatchPolicy] = s
+	}
+	if s, ok := c04ModeStr(c.mode, r); ok {
 		ann[extension.AnnotationGangMode] = s
 	}
 	switch c.gshape {
@@ -256,7 +344,7 @@ func (c c04Cfg) toks() string {
 	if c.gshape != 4 {
 		grp = nil
 	}
-	return fmt.Sprintf("%d %d %d %d %d %s", c.min, c.pol, c.mode, c.gshape, len(grp), vIntsI(grp))
+	return fmt.Sprintf("%d %d %d %d %d %d %s", c.min, c.pol, c.aliasTok(), c.mode, c.gshape, len(grp), vIntsI(grp))
 }
 
 func c04PG(g int, c c04Cfg, r *vRand) *v1alpha1.PodGroup {
@@ -358,6 +446,8 @@ func c04Project(s *GangSummary) c04Sum {
 		out.pol = 1
 	case extension.GangMatchPolicyOnceSatisfied:
 		out.pol = 2
+	case "":
+		out.pol = 3 // only as the copy of an empty configured default
 	default:
 		out.pol = 7
 	}
@@ -400,8 +490,10 @@ func c04RaceCase(h *vHarness, r *vRand, st *c04RaceStats, cl *c04WireClients) {
 	h.Tag("newgang-race")
 	h.Op("# new-gang race: pod informer goroutine vs PodGroup informer goroutine")
 	fh := &c04Handle{waiting: map[int]*c04WP{}}
+	dflt := []int{2, 2, 0, 1, 3}[r.Intn(5)]
+	h.Op("# the manager's CoschedulingArgs.DefaultMatchPolicy = %q", c04DfltStr(dflt))
 	args := &config.CoschedulingArgs{DefaultTimeout: metav1.Duration{Duration: 300 * time.Second},
-		DefaultMatchPolicy: extension.GangMatchPolicyOnceSatisfied}
+		DefaultMatchPolicy: c04DfltStr(dflt)}
 	cache := NewGangCache(args, nil, nil, nil, fh)
 	mgr := &PodGroupManager{handle: fh, args: args, cache: cache}
 	podAdd := func(pod *corev1.Pod) { cache.onPodAdd(pod) }
@@ -441,7 +533,7 @@ func c04RaceCase(h *vHarness, r *vRand, st *c04RaceStats, cl *c04WireClients) {
 		k := r.Range(8, 40)
 		batch := make([]*rg, k)
 		for i := range batch {
-			g := &rg{id: next, cfg: c04Cfg{min: r.Range(1, 3), pol: r.Intn(4), mode: r.Intn(3)}}
+			g := &rg{id: next, cfg: c04Cfg{min: r.Range(1, 3), pol: r.Intn(5), mode: r.Intn(7)}.respell(r)}
 			next++
 			if r.Chance(1, 5) {
 				g.way = 1
@@ -553,15 +645,19 @@ func c04RaceCase(h *vHarness, r *vRand, st *c04RaceStats, cl *c04WireClients) {
 					fail("C04:pod-in-two-sets", "pod %d of new gang r%d is in %d of pending/waiting/bound", g.pids[j], g.id, cnt)
 				}
 			}
-			wantPol, _ := c04PolStr(g.cfg.pol)
-			if g.cfg.pol > 2 {
-				wantPol = extension.GangMatchPolicyOnceSatisfied
+			// declared policy if a legal one is declared, else the CONFIGURED default (an empty configured default may show
+			// up as "" or as the documented default once-satisfied); two annotations that disagree: not judged
+			ep, amb := g.cfg.effPol(dflt)
+			wantPol := c04DfltStr(ep)
+			polOK := s.GangMatchPolicy == wantPol || amb
+			if dp, _ := g.cfg.declaredPol(); dp < 0 && dflt == 3 && s.GangMatchPolicy == "" {
+				polOK = true
 			}
 			wantMode := extension.GangModeStrict
 			if g.cfg.mode == 0 {
 				wantMode = extension.GangModeNonStrict
 			}
-			if !s.HasGangInit || s.MinRequiredNumber != g.cfg.min || s.GangMatchPolicy != wantPol || s.Mode != wantMode || s.GangFrom != GangFromPodGroupCrd {
+			if !s.HasGangInit || s.MinRequiredNumber != g.cfg.min || !polOK || s.Mode != wantMode || s.GangFrom != GangFromPodGroupCrd {
 				fail("C04:gang-not-initialised-by-podgroup", "new gang r%d: its PodGroup (min %d, policy %q, mode %q) was added while its first pod was added on the other informer goroutine, "+
 					"but the cached gang has init=%v min=%d policy=%q mode=%q from=%q", g.id, g.cfg.min, wantPol, wantMode, s.HasGangInit, s.MinRequiredNumber, s.GangMatchPolicy, s.Mode, s.GangFrom)
 			}
@@ -613,6 +709,18 @@ func TestVerifC04(t *testing.T) {
 	if vEnvInt("VERIF_C04_NOEXH", 0) != 0 {
 		nShp = 0
 	}
+	// resolution stream (the next nRes cases), exhaustive in both tiers: the configured DefaultMatchPolicy (only-waiting /
+	// waiting-and-running / once-satisfied / "") x path (PodGroup / pod annotations / lightweight labels) x 10 spellings of
+	// the match policy (three legal, absent, "", illegal, through the alias annotation, alias "" / illegal) x 7 spellings of
+	// the mode (NonStrict, Strict, absent, garbage, "", strict / nonstrict in another letter case) for ONE gang of min 2 that
+	// is a group of its own, over two scheduling rounds: member 0 parks at Permit and member 1 fails (strict => 0 is
+	// rejected); both are released and bound; a replacement member 2 comes to Permit alone (waits unless the policy in force
+	// counts the bound ones or is once-satisfied) and member 3 fails (strict and not once-satisfied => 2 is rejected).
+	resPol := [][2]int{{0, 0}, {1, 0}, {2, 0}, {3, 0}, {5, 0}, {4, 0}, {3, 1}, {5, 2}, {3, 5}, {3, 6}}
+	nRes := 4 * 3 * len(resPol) * 7
+	if vEnvInt("VERIF_C04_NOEXH", 0) != 0 {
+		nRes = 0
+	}
 	// wired stream (the next nWired cases): the system under test is built by the real NewPodGroupManager and every
 	// informer event goes to the handler it REGISTERED on the (captured) pod / PodGroup informer; deletes arrive as the
 	// object, as a re-list tombstone (cache.DeletedFinalStateUnknown by value) or in a shape onPodDelete ignores.
@@ -636,7 +744,8 @@ func TestVerifC04(t *testing.T) {
 	if vEnvInt("VERIF_C04_NOEXH", 0) != 0 {
 		nWexh = 0
 	}
-	wexhBase := n + nExh + nConc + nShp + nWired + nRace
+	resBase := n + nExh + nConc + nShp
+	wexhBase := resBase + nRes + nWired + nRace
 	for idx := 0; idx < wexhBase+nWexh; idx++ {
 		r := h.Begin(idx)
 		if r == nil {
@@ -645,8 +754,9 @@ func TestVerifC04(t *testing.T) {
 		exh := idx >= n && idx < n+nExh
 		conc := idx >= n+nExh && idx < n+nExh+nConc
 		shp := idx >= n+nExh+nConc && idx < n+nExh+nConc+nShp
-		wired := idx >= n+nExh+nConc+nShp && idx < n+nExh+nConc+nShp+nWired
-		if idx >= n+nExh+nConc+nShp+nWired && idx < wexhBase {
+		res := idx >= resBase && idx < resBase+nRes
+		wired := idx >= resBase+nRes && idx < resBase+nRes+nWired
+		if idx >= resBase+nRes+nWired && idx < wexhBase {
 			if wireClients == nil {
 				wireClients = c04NewWireClients()
 			}
@@ -663,6 +773,14 @@ func TestVerifC04(t *testing.T) {
 		nG := r.Range(1, 3)
 		if exh || shp {
 			nG = 2
+		}
+		if res {
+			nG = 1
+		}
+		// the scheduler's configuration: CoschedulingArgs.DefaultMatchPolicy (3 = the empty string)
+		dflt := []int{2, 2, 0, 1, 3}[r.Intn(5)]
+		if exh {
+			dflt = 2
 		}
 		// partition of the gangs into gang groups
 		groupOf := make([][]int, nG)
@@ -700,8 +818,9 @@ func TestVerifC04(t *testing.T) {
 			if r.Chance(1, 12) {
 				c.pol = 4
 			}
+			c = c.respell(r)
 			if !strictBias || r.Chance(1, 4) {
-				c.mode = r.Intn(4)
+				c.mode = r.Intn(7)
 			}
 			// the declared group, written in a random order; a single-gang group is usually left out
 			grp := append([]int(nil), groupOf[g]...)
@@ -783,12 +902,31 @@ func TestVerifC04(t *testing.T) {
 			pods = append(pods, &c04PodSt{id: 10, g: 1})
 			h.Tag("shapes-exhaustive")
 		}
+		if res {
+			code := idx - resBase
+			dflt = code % 4
+			code /= 4
+			path := code % 3
+			code /= 3
+			pv := resPol[code%len(resPol)]
+			code /= len(resPol)
+			mode := code % 7
+			cfgs[0], ways[0] = c04Cfg{min: 2, pol: pv[0], al: pv[1], mode: mode, gshape: 0}, path
+			groupOf[0] = []int{0}
+			pods = nil
+			for i := 0; i < 4; i++ {
+				pods = append(pods, &c04PodSt{id: i, g: 0})
+			}
+			h.Tag("resolution-exhaustive")
+		}
 		h.Tag(fmt.Sprintf("gangs:%d", nG))
+		h.Tag(fmt.Sprintf("configured-default-policy:%d", dflt))
 
 		// ---------- the system under test ----------
 		fh := &c04Handle{waiting: map[int]*c04WP{}}
+		h.Op("args %d", dflt)
 		args := &config.CoschedulingArgs{DefaultTimeout: metav1.Duration{Duration: 300 * time.Second},
-			DefaultMatchPolicy: extension.GangMatchPolicyOnceSatisfied}
+			DefaultMatchPolicy: c04DfltStr(dflt)}
 		cache := NewGangCache(args, nil, nil, nil, fh)
 		mgr := &PodGroupManager{handle: fh, args: args, cache: cache}
 		// informer event delivery: straight into the GangCache methods, or (wired stream) into the registered handlers
@@ -871,17 +1009,24 @@ func TestVerifC04(t *testing.T) {
 		// declared.  Absent / illegal policy = the configured default once-satisfied; absent / illegal mode = Strict.
 		type c04Decl struct {
 			min, pol int
+			amb      bool // two match-policy annotations that disagree: the policy-dependent clauses are not judged
 			strict   bool
 			group    []int
 		}
 		decl := make([]*c04Decl, nG) // nil: nothing valid declared yet, or the gang left the cache
 		scope := make([]map[int]bool, nG)
 		declare := func(g int, c c04Cfg, path string) {
-			pol := c.pol
-			if pol > 2 {
-				pol = 2
+			// policy in force = the declared one if a legal one is declared, else what the scheduler was CONFIGURED with;
+			// mode = NonStrict only when spelled exactly so, Strict for everything else
+			pol, amb := c.effPol(dflt)
+			if dp, _ := c.declaredPol(); dp < 0 {
+				h.Tag(fmt.Sprintf("declared:no legal policy, configured default %d in force", dflt))
 			}
-			decl[g] = &c04Decl{min: c.min, pol: pol, strict: c.mode != 0, group: c.declaredGroup(g)}
+			if amb {
+				h.Tag("declared:match-policy annotation and alias disagree")
+			}
+			h.Tag(fmt.Sprintf("declared:mode-spelling=%d", c.mode))
+			decl[g] = &c04Decl{min: c.min, pol: pol, amb: amb, strict: c.mode != 0, group: c.declaredGroup(g)}
 			if scope[g] == nil {
 				scope[g] = map[int]bool{}
 			}
@@ -966,6 +1111,7 @@ func TestVerifC04(t *testing.T) {
 						h.Fail("C04:released-while-group-unsatisfied", "pod %d released but gang %d of its declared group is not in the cache", q, x)
 					case d == nil:
 						h.Fail("C04:released-while-group-unsatisfied", "pod %d released but gang %d of its declared group has no valid declaration (not initialised)", q, x)
+					case d.amb:
 					default:
 						// the sets are the cache's state (minus pods whose delete event the harness has delivered: a pod that is
 						// gone holds nothing); minimum, policy and group are what was DECLARED
@@ -976,7 +1122,7 @@ func TestVerifC04(t *testing.T) {
 						// under the once-satisfied policy a group that was satisfied before is no longer constrained
 						onceOK := d.pol == 2 && (groupSatisfied(gq) || groupSatisfied(x))
 						if cnt < d.min && !onceOK {
-							h.Fail("C04:released-while-group-unsatisfied", "pod %d released but gang %d holds %d < declared min %d (declared policy %d)", q, x, cnt, d.min, d.pol)
+							h.Fail("C04:released-while-group-unsatisfied", "pod %d released but gang %d holds %d < declared min %d (policy in force %d; configured default %d)", q, x, cnt, d.min, d.pol, dflt)
 						}
 					}
 				}
@@ -995,7 +1141,7 @@ func TestVerifC04(t *testing.T) {
 			}
 			// ---- clause 2: strict mode, failed / rolled-back member => every waiting member of the group rejected ----
 			if kind == 2 || kind == 3 {
-				if _, ok := prev[ps.g]; ok && decl[ps.g] != nil && decl[ps.g].strict && !(decl[ps.g].pol == 2 && groupSatisfied(ps.g)) {
+				if _, ok := prev[ps.g]; ok && decl[ps.g] != nil && decl[ps.g].strict && !decl[ps.g].amb && !(decl[ps.g].pol == 2 && groupSatisfied(ps.g)) {
 					for q, gq := range fwBefore {
 						if q == ps.id || !c04Has(declGroupOf(ps.g), gq) {
 							continue
@@ -1076,13 +1222,14 @@ func TestVerifC04(t *testing.T) {
 			way := ways[ps.g]
 			c := cfgs[ps.g]
 			minOK := 1
-			if way != 0 && !shp {
+			if way != 0 && !shp && !res {
 				if r.Chance(1, 10) {
 					minOK = r.Intn(2) * 2 // 0 illegal, 2 missing
 				}
 				if r.Chance(1, 12) { // a pod that disagrees with its siblings: only the first valid one counts
 					c.min = r.Range(1, 3)
 					c.pol = r.Intn(3)
+					c = c.respell(r)
 				}
 			}
 			pod := c04Pod(ps.id, ps.g, way, node, c, minOK, r)
@@ -1106,12 +1253,14 @@ func TestVerifC04(t *testing.T) {
 				switch v := r.Intn(6); {
 				case v < 2: // annotation-only update: policy / mode change, the spec does not
 					c.pol = r.Intn(5)
-					c.mode = r.Intn(4)
+					c = c.respell(r)
+					c.mode = r.Intn(7)
 					h.Tag("pgupd:annotation-only")
 				case v < 4: // spec (min) and annotations change
 					c.min = r.Range(0, 3)
 					c.pol = r.Intn(5)
-					c.mode = r.Intn(4)
+					c = c.respell(r)
+					c.mode = r.Intn(7)
 					h.Tag("pgupd:spec-and-annotations")
 				default: // the object is re-sent unchanged (resync)
 					h.Tag("pgupd:unchanged")
@@ -1431,6 +1580,35 @@ func TestVerifC04(t *testing.T) {
 				case 1, 3:
 					doUnreserve(ps)
 				}
+			}
+		}
+		if res {
+			nOps, scripted = 0, false
+			if ways[0] == 0 {
+				doPGAdd(0, false)
+			}
+			doPodEvt(pods[0], false, false, false)
+			doPodEvt(pods[1], false, false, false)
+			doPermit(pods[0])     // parks: 1 < min 2
+			doPostFilter(pods[1]) // member 1 finds no node: strict => 0 is rejected
+			if pods[0].flight == 3 {
+				doUnreserve(pods[0])
+			}
+			if pods[0].flight == 0 {
+				doPermit(pods[0])
+			}
+			doPermit(pods[1]) // both released
+			doPostBind(pods[0])
+			doPostBind(pods[1])
+			doPodEvt(pods[2], false, false, false) // second round: a replacement member, alone
+			doPermit(pods[2])
+			doPodEvt(pods[3], false, false, false)
+			doPostFilter(pods[3])
+			switch pods[2].flight {
+			case 2:
+				doPostBind(pods[2])
+			case 1, 3:
+				doUnreserve(pods[2])
 			}
 		}
 		if exh {
@@ -2067,6 +2245,9 @@ func TestVerifC04(t *testing.T) {
 		"non-trivial = at least two members released from Permit or at least one strict-mode group rejection that hit a waiting pod; " +
 		fmt.Sprintf("plus an exhaustive stream: all 14^%d call sequences after a fixed arrival prefix on 2 gangs x 1 pod for %d (policy, mode) pairs; ", exhLen, len(exhCfgs)) +
 		fmt.Sprintf("plus %d cases exhausting path x groups-annotation shape x min x policy x mode for one gang (+ a partner gang); ", nShp) +
+		fmt.Sprintf("plus %d cases exhausting configured DefaultMatchPolicy (4) x path (3) x match-policy spelling (10, incl. absent / empty / illegal / alias) x mode spelling (7, incl. other letter cases) "+
+			"for one gang of min 2 over two scheduling rounds (park + failure, release + bind, lone replacement member + failure); every other stream draws the configured default from the same 4 values "+
+			"and the mode / policy spellings from the same tokens; ", nRes) +
 		fmt.Sprintf("plus a concurrency stream of %d cases: after a sequential prefix an informer goroutine (pod add / update / delete, repeated) races a scheduling goroutine "+
 			"(Permit / Unreserve / PostBind in protocol order) on the same pods for 6-20 rounds, oracle at every barrier; non-trivial there = a round in which calls of the two goroutines overlapped in time; ", nConc) +
 		fmt.Sprintf("plus a wired stream of %d cases: the same histories on a PodGroupManager built by the real NewPodGroupManager, every informer event handed to the handler it registered on the "+
